@@ -5,7 +5,6 @@ package c07
 import (
 	"bytes"
 	"fmt"
-	"io"
 	"math/big"
 	"sync"
 	"testing"
@@ -415,7 +414,7 @@ func runCell(c cellID, ord, draw int) {
 		switch {
 		case pn != nil:
 			lib.Count("auth-unsupported:sender-panic")
-			noteOnce("Sender."+setupNames[c.mode]+" with KEM "+c.k.name+" panics ("+pn.Value+") instead of returning ErrInvalidAuthKEM (RFC 9180 defines no auth mode for this KEM; not judged)")
+			noteOnce("Sender." + setupNames[c.mode] + " with KEM " + c.k.name + " panics (" + pn.Value + ") instead of returning ErrInvalidAuthKEM (RFC 9180 defines no auth mode for this KEM; not judged)")
 		case err != nil:
 			lib.Count("auth-unsupported:sender-error")
 		default:
@@ -428,7 +427,7 @@ func runCell(c cellID, ord, draw int) {
 			switch {
 			case pn != nil:
 				lib.Count("auth-unsupported:receiver-panic")
-				noteOnce("Receiver."+setupNames[c.mode]+" with KEM "+c.k.name+" panics ("+pn.Value+") instead of returning ErrInvalidAuthKEM (not judged)")
+				noteOnce("Receiver." + setupNames[c.mode] + " with KEM " + c.k.name + " panics (" + pn.Value + ") instead of returning ErrInvalidAuthKEM (not judged)")
 			case err != nil:
 				lib.Count("auth-unsupported:receiver-error")
 			default:
@@ -721,16 +720,3 @@ func runCell(c cellID, ord, draw int) {
 		try("mode", modeNames[c.mode]+"-vs-"+modeNames[m2], R.sk, info, a)
 	}
 }
-
-// ---------------------------------------------------------------- helpers shared with the other monitors
-
-type zeroReader struct{}
-
-func (zeroReader) Read(p []byte) (int, error) {
-	for i := range p {
-		p[i] = 0
-	}
-	return len(p), nil
-}
-
-var _ io.Reader = zeroReader{}
